@@ -24,7 +24,10 @@ import (
 
 	corelog "tunnox-core/internal/core/log"
 	"tunnox-core/internal/core/types"
+	"tunnox-core/internal/cloud/models"
+	"tunnox-core/internal/cloud/stats"
 	"tunnox-core/internal/packet"
+	"tunnox-core/internal/protocol/adapter"
 	"tunnox-core/internal/protocol/session"
 	"tunnox-core/internal/stream"
 )
@@ -50,6 +53,9 @@ const (
 	opBreakWrites = 12 // c            the transport starts failing writes (peer reset) without being closed
 	opReReg       = 13 // c pre        RegisterControlConnection(NewControlConnection(session conn c)) even if c already has a record (same stream)
 	opReRegNew    = 14 // c pre        the same with a FRESH stream object (raw registry API only; not in the Coq model)
+	opRegClaim    = 15 // c k          Register a control connection whose ClientID is pre-filled with k but which is NOT authenticated
+	opAdAccept    = 16 // c p          the real BaseAdapter.handleConnection is started on a transport (p=1: IsPersistent()) and blocks in its read loop
+	opAdEnd       = 17 // c kind       the transport's pending Read returns EOF (0) / an error (1): read loop ends, deferred cleanupConnection runs
 )
 
 const hour = time.Hour
@@ -173,7 +179,71 @@ type cfgIn struct {
 	MaxConn int `json:"maxConn"`
 	MaxCtl  int `json:"maxCtl"`
 	Tmo     int `json:"tmo"` // logical hours; real HeartbeatTimeout = tmo h + 30 min
+	// cloud-control double: CC=1 installs it; per method 0 = never fails, 1 = the first call fails, 2 = every call fails;
+	// DiscFalse=1: DisconnectClientIfMatch answers "not matched" (client already reconnected elsewhere)
+	CC         int `json:"cc"`
+	DiscFail   int `json:"discFail"`
+	EnsureFail int `json:"ensureFail"`
+	DiscFalse  int `json:"discFalse"`
 }
+
+// cloudDouble: the CloudControlAPI the session manager notifies; records every call, fails as configured
+type cloudDouble struct {
+	cfg   cfgIn
+	nDisc int
+	nEns  int
+	calls [][3]int // method (1 DisconnectClientIfMatch, 2 EnsureClientOnline), client id, connection
+}
+
+func failNow(mode, n int) bool { return mode == 2 || (mode == 1 && n == 1) }
+
+func (d *cloudDouble) GetPortMapping(mappingID string) (*models.PortMapping, error) {
+	return nil, errors.New("cloud double: no mappings")
+}
+func (d *cloudDouble) UpdatePortMappingStats(mappingID string, ts *stats.TrafficStats) error { return nil }
+func (d *cloudDouble) GetClientPortMappings(clientID int64) ([]*models.PortMapping, error) {
+	return nil, nil
+}
+func (d *cloudDouble) TouchClient(clientID int64)            {}
+func (d *cloudDouble) DisconnectClient(clientID int64) error { return nil }
+func (d *cloudDouble) DisconnectClientIfMatch(clientID int64, nodeID, connID string) (bool, error) {
+	d.nDisc++
+	d.calls = append(d.calls, [3]int{1, int(clientID), cnum(connID)})
+	if failNow(d.cfg.DiscFail, d.nDisc) {
+		return false, errors.New("cloud double: store unavailable")
+	}
+	return d.cfg.DiscFalse == 0, nil
+}
+func (d *cloudDouble) EnsureClientOnline(clientID int64, nodeID, connID, ip, protocol, version string) error {
+	d.nEns++
+	d.calls = append(d.calls, [3]int{2, int(clientID), cnum(connID)})
+	if failNow(d.cfg.EnsureFail, d.nEns) {
+		return errors.New("cloud double: store unavailable")
+	}
+	return nil
+}
+
+// gconn: the transport handed to the real adapter; its Read blocks until the harness ends the connection
+type gconn struct {
+	t           *transport
+	persistent  bool
+	readStarted chan struct{}
+	release     chan error
+	done        chan struct{}
+	started     bool
+}
+
+func (g *gconn) Read(p []byte) (int, error) {
+	if !g.started {
+		g.started = true
+		close(g.readStarted)
+	}
+	return 0, <-g.release
+}
+func (g *gconn) Write(p []byte) (int, error) { return g.t.Write(p) }
+func (g *gconn) Close() error                { return g.t.Close() }
+func (g *gconn) GetConnectionID() string     { return g.t.id }
+func (g *gconn) IsPersistent() bool          { return g.persistent }
 type caseIn struct {
 	Mode     string  `json:"mode"` // "" = one sequence | "ex" = exhaustive enumeration
 	Cfg      cfgIn   `json:"cfg"`
@@ -194,6 +264,7 @@ type stepObs struct {
 	Err    int      `json:"err"`
 	N      int      `json:"n"`
 	Fired  int      `json:"fired"`
+	Calls  [][3]int `json:"calls"` // cloud-control calls made during this operation (method, client id, connection), sorted
 	Sess   []int    `json:"sess"`
 	Reg    [][4]int `json:"reg"` // c, cid, auth, stale
 	Idx    [][2]int `json:"idx"` // x, c
@@ -257,6 +328,10 @@ type world struct {
 	objTr         map[*session.ControlConnection]*transport // control connections created with their own (fresh) stream
 	pk            bool                                      // transports are PackageStreamers (interleaving cases)
 	inj           *injSpec
+	cloud   *cloudDouble
+	ad      *adapter.VerifAdapter
+	gc      map[int]*gconn // adapter-driven connections whose read loop is running
+	ctx     context.Context
 	mayUnregister bool // one of two concurrently started operations removes a record without closing its stream
 }
 
@@ -322,7 +397,9 @@ func universe(ops0 [][]int) (conns, clients, tunnels []int) {
 		case opKick:
 			clients = addUniq(clients, g(1))
 			conns = addUniq(conns, g(2))
-		case opRegRaw, opAuthRaw, opReReg, opReRegNew:
+		case opAdAccept, opAdEnd:
+			conns = addUniq(conns, g(1))
+		case opRegRaw, opAuthRaw, opReReg, opReRegNew, opRegClaim:
 			conns = addUniq(conns, g(1))
 			clients = addUniq(clients, g(2))
 		case opToTunnel:
@@ -348,6 +425,13 @@ func newWorld(cfg cfgIn, ops [][]int) *world {
 	w := &world{sm: sm, cancel: cancel, auth: &authHandler{}, tr: map[int]*transport{},
 		objTr: map[*session.ControlConnection]*transport{}, seen: map[*session.ControlConnection]int{}, epoch: time.Now().Add(-1000 * hour), dead: map[int]bool{}}
 	sm.SetAuthHandler(w.auth)
+	w.ctx = ctx
+	w.gc = map[int]*gconn{}
+	if cfg.CC != 0 {
+		w.cloud = &cloudDouble{cfg: cfg}
+		sm.SetCloudControl(w.cloud)
+		sm.SetNodeID("node-verif")
+	}
 	w.conns, w.clients, w.tunnels = universe(ops)
 	for _, o := range ops {
 		if hasInj(o) {
@@ -358,6 +442,10 @@ func newWorld(cfg cfgIn, ops [][]int) *world {
 }
 
 func (w *world) close() {
+	for _, g := range w.gc {
+		g.release <- io.EOF
+		<-g.done
+	}
 	w.sm.Close()
 	w.cancel()
 }
@@ -571,6 +659,43 @@ func (w *world) apply(o []int) (int, int) {
 				cc.SetAuthenticated(true)
 			}
 			sm.RegisterControlConnection(cc)
+		}
+	case opRegClaim:
+		conn, ok := sm.GetConnection(id)
+		t := w.tr[c]
+		if ok && conn.Stream != nil && t != nil && !t.closed {
+			cc := session.NewControlConnection(conn.ID, conn.Stream, nil, "tcp")
+			cc.SetClientID(int64(arg(o, 2))) // claims the id, has not proven it
+			sm.RegisterControlConnection(cc)
+		}
+	case opAdAccept:
+		if w.ad == nil {
+			w.ad = adapter.VerifNewAdapter(w.ctx, sm)
+		}
+		g := &gconn{t: &transport{id: id}, persistent: arg(o, 2) != 0, readStarted: make(chan struct{}), release: make(chan error, 1), done: make(chan struct{})}
+		go func() {
+			defer close(g.done)
+			w.ad.VerifHandleConnection(g)
+		}()
+		select {
+		case <-g.readStarted: // accepted, read loop running
+			w.tr[c] = g.t
+			w.gc[c] = g
+			return 0, 0
+		case <-g.done: // AcceptConnection failed, handleConnection returned
+			return 1, 0
+		}
+	case opAdEnd:
+		if g := w.gc[c]; g != nil {
+			delete(w.gc, c)
+			if arg(o, 2) == 0 {
+				g.release <- io.EOF
+			} else {
+				g.release <- errors.New("transport: connection reset by peer")
+			}
+			<-g.done
+			w.dead[c] = true
+			return 0, 1 // n=1: the read loop of a live adapter connection ended
 		}
 	case opReReg, opReRegNew:
 		pre := arg(o, 2)
@@ -827,6 +952,9 @@ func runSeq(cfg cfgIn, ops [][]int, wantObs bool) ([]stepObs, []viol) {
 			host = o[:5]
 			w.inj = &injSpec{at: o[5] - 1, op: injOf(o)}
 		}
+		if w.cloud != nil {
+			w.cloud.calls = nil
+		}
 		e, n := w.apply(host)
 		if w.inj != nil {
 			fired = w.inj.fired
@@ -834,10 +962,35 @@ func runSeq(cfg cfgIn, ops [][]int, wantObs bool) ([]stepObs, []viol) {
 		}
 		w.stampNew()
 		post := w.snapshot()
-		vs = append(vs, w.check(i, host, e, n, fired, pre, post)...)
+		// the adapter-driven operations are judged as what they must amount to: accept / close of that connection
+		judged := host
+		switch arg(host, 0) {
+		case opAdAccept:
+			judged = []int{opAccept, arg(host, 1)}
+		case opAdEnd:
+			judged = []int{opTick, 0}
+			if n == 1 {
+				judged = []int{opCloseConn, arg(host, 1)}
+			}
+		}
+		vs = append(vs, w.check(i, judged, e, n, fired, pre, post)...)
 		if wantObs {
 			ob := post.obs(e, n)
 			ob.Fired = b2i(fired)
+			ob.Calls = [][3]int{}
+			if w.cloud != nil {
+				ob.Calls = append(ob.Calls, w.cloud.calls...)
+				sort.Slice(ob.Calls, func(a, b int) bool {
+					x, y := ob.Calls[a], ob.Calls[b]
+					if x[0] != y[0] {
+						return x[0] < y[0]
+					}
+					if x[2] != y[2] {
+						return x[2] < y[2]
+					}
+					return x[1] < y[1]
+				})
+			}
 			steps = append(steps, ob)
 		}
 		pre = post
